@@ -1,5 +1,6 @@
 from dataclasses import dataclass, field
 from functools import cached_property, partial, partialmethod
+import re
 
 
 @dataclass(init=False)
@@ -44,7 +45,7 @@ class TapeRecorder:
             return self.__class__(
                 algebra=self.algebra,
                 expr=f"({self.expr}[{idx}],)",
-                keys=(self.keys()[idx],)
+                keys=(0,)
             )
 
     def grade(self, *grades):
